@@ -76,6 +76,8 @@ class Interp(Engine):
         return None
 
     def getattr_(self, v, name):
+        if hasattr(v, "__pyvc_getattr__"):
+            return v.__pyvc_getattr__(self, name)
         if isinstance(v, Obj):
             if name in v.fields:
                 return v.fields[name]
@@ -476,11 +478,8 @@ class Interp(Engine):
 
     def invoke(self, func, args, kwargs):
         c = self.registry.get(func.key)
-        if c is not None and not (self.spec_mode and c.pure_inline):
+        if c is not None and not c.pure_inline:
             return self.modular_call(c, func, args, kwargs)
-        if self.spec_mode and not (c is not None and c.pure_inline):
-            # spec clauses may call small pure repo helpers; they are inlined
-            pass
         if len(self.inline_stack) > 40:
             raise Unsupported(f"inline depth exceeded at {func.key}")
         fr = Frame(parent=func.frame, globs=func.globs, func=func)
